@@ -33,6 +33,7 @@ pub fn gen_c04(rng: &mut Prng, plan: &mut Plan) {
         unsafe_permille: if inject { 120 } else { 0 },
         std_only: true,
         text_heavy: false,
+        arrivals: true,
     };
     let alloc = if rng.chance(1, 10) { 1 } else { 0 };
     let mut steps = {
@@ -87,6 +88,7 @@ pub fn gen_c14h(rng: &mut Prng, plan: &mut Plan) {
         unsafe_permille: 0,
         std_only: true,
         text_heavy: false,
+        arrivals: true,
     };
     plan.cfg = Step::new("cfg");
     let mut g = Gen::new(rng, &p);
@@ -265,6 +267,7 @@ pub fn gen_c14f(rng: &mut Prng, plan: &mut Plan) {
         unsafe_permille: 0,
         std_only: true,
         text_heavy: false,
+        arrivals: true,
     };
     let mut steps = {
         let mut g = Gen::new(rng, &p);
@@ -339,6 +342,7 @@ pub fn gen_c15(rng: &mut Prng, plan: &mut Plan) {
         unsafe_permille: if rng.chance(1, 3) { 150 } else { 0 },
         std_only: true,
         text_heavy: true,
+        arrivals: true,
     };
     let policy = rng.below(3) as i128; // 0 mixed, 1 always block-end at guard, 2 always block-start at guard
     let protect = if thorough { rng.chance(1, 2) } else { rng.chance(1, 4) };
@@ -405,6 +409,7 @@ pub fn gen_c16(rng: &mut Prng, plan: &mut Plan) {
         unsafe_permille: if rng.chance(1, 4) { 100 } else { 0 },
         std_only: false,
         text_heavy: true,
+        arrivals: false,
     };
     plan.cfg = Step::new("cfg");
     let mut g = Gen::new(rng, &p);
@@ -422,6 +427,7 @@ pub fn exec_c16(plan: &Plan) -> RunResult {
 
 // ---- C15 (rand): the u32 view of a u64 buffer in gen_biguint, into guarded memory -----------------------
 
+#[cfg(feature = "opt")]
 pub fn gen_c15rand(rng: &mut Prng, plan: &mut Plan) {
     let n = rng.range(1, 8);
     let mut words = Vec::new();
@@ -443,6 +449,7 @@ pub fn gen_c15rand(rng: &mut Prng, plan: &mut Plan) {
     }
 }
 
+#[cfg(feature = "opt")]
 pub fn exec_c15rand(plan: &Plan) -> RunResult {
     use crate::obs::{denote_i, denote_u};
     use crate::plan::Digest;
